@@ -681,7 +681,9 @@ class FunctionParser(BaseParser):
             # positional only field is excluded no matter the arg is provided or not
 
         parsed_kwargs = self.parse_data(
-            kwargs, context=context, excluded_keys=parsed_keys, as_attname=True
+            kwargs, context=context, excluded_keys=parsed_keys, as_attname=True,
+            # max_params / min_params count the arguments that are passed in, by position or by keyword
+            params_num=len(args) + len(kwargs)
         )
         context.raise_error()  # raise the parse error before calling the function
         return tuple(parsed_args), parsed_kwargs
